@@ -59,7 +59,7 @@ def concretise(job, unit, res, workdir, log):
                 stubs += lw.proto(inf['node']) + '\n{\n' + body + '\n}\n'
                 stub_fns.append(cn)
         gtext = ''.join('%s %s;\n' % (t, g) for t, g in ghosts)
-        jd = os.path.join(workdir, 'cex_' + re.sub(r'[^A-Za-z0-9_.-]', '_', job['name']))
+        jd = os.path.join(workdir, 'cex_' + R.safe_name(job['name']))
         os.makedirs(jd, exist_ok=True)
         pre_c = '#ifdef QX_NATIVE\n' + job.get('native_pre', job.get('pre', '')) + '\n#else\n' + job.get('pre', '') + '\n#endif\n'
         body_c = gtext + pre_c + '\n' + text + '\n' + job.get('extra', '') + '\n' + stubs + '\n' + htext
@@ -174,6 +174,7 @@ def run_property(pid, tier, seed, workdir, t0, a):
     if a.jobs:
         jobs = [j for j in jobs if re.search(a.jobs, j['name'])]
     log('check %s tier=%s: %d jobs' % (pid, tier, len(jobs)))
+    assert len(set(R.safe_name(j['name']) for j in jobs)) == len(jobs), 'job names must be unique'
     # canary jobs: same contract + an unsatisfiable postcondition that must FAIL (else requires is contradictory)
     canaries = []
     for j in jobs:
@@ -230,7 +231,7 @@ def run_property(pid, tier, seed, workdir, t0, a):
                    obligation=fresh[0]['name'], description=fresh[0]['description'], source='%s:%s' % (fresh[0]['file'], fresh[0]['line']),
                    failed_obligations=[dict(name=o['name'], description=o['description'], source='%s:%s' % (o['file'], o['line'])) for o in fresh],
                    cbmc_cmds=r.cmds, cbmc_log=r.log[-2000:], concretisation=cx)
-        path = os.path.join(VERIF, 'replays', pid, re.sub(r'[^A-Za-z0-9_.-]', '_', r.name) + '.json')
+        path = os.path.join(VERIF, 'replays', pid, R.safe_name(r.name) + '.json')
         with open(path, 'w') as f:
             json.dump(rec, f, indent=1, default=str)
         violations.append((path, cx.get('reproduced')))
